@@ -18,6 +18,8 @@ package tape
 //@   at call OpenFile#3 assert [appends-only-after-a-complete-record] overwrite || tapeTailComplete
 
 //@ func (*TapeManager).GetWriter
+//@   property C11
+//@   at call OpenTapeWriteOnly assert [drive-opened-by-its-holder] mutexHeld[addr(m.physicalLock)]
 //@   property C10 also C11
 //@   safety C10
 //@   requires !mutexHeld[addr(m.physicalLock)]
@@ -29,6 +31,8 @@ package tape
 //@   ensures [marks-overwrote] m.overwrote
 
 //@ func (*TapeManager).Close
+//@   property C11
+//@   at call closer assert [drive-closed-by-its-holder] mutexHeld[addr(m.physicalLock)]
 //@   property C10 also C11
 //@   safety C10
 //@   requires mutexHeld[addr(m.physicalLock)]
@@ -38,6 +42,8 @@ package tape
 // The reader handle is closed whenever the drive is free: Close() runs the closer of whatever was opened last. That
 // invariant is assumed here (the closer is a func-typed field without a spec); everything else is proved.
 //@ func (*TapeManager).GetReader
+//@   property C11
+//@   at call openOrReuseReader/OpenTapeReadOnly assert [drive-opened-by-its-holder] mutexHeld[addr(m.physicalLock)]
 //@   property C10 also C11
 //@   safety C10
 //@   requires !mutexHeld[addr(m.physicalLock)] && !mutexHeld[addr(m.readerLock)]
